@@ -246,6 +246,9 @@ def run(tier, repo=None, tag="repo"):
             rules_c01.extreme_unit(F, m_, "Maximum", "I7", transform=mirror)
         except (symex.Unsupported, KeyError, IndexError, TypeError, AttributeError) as e:
             Sink.bad(m_, "AP", "unrecognised", "Minimum/Maximum", "UNRECOGNISED idiom while establishing the window-extreme contract: %r" % (e,))
+        # the sign facts are about totals / extremes of the window since construction or reset: stale state surviving reset() breaks them
+        rep.rule("RP", "reset() restores the constructor state of the five bounded oscillators and of the EMA / Minimum / Maximum they embed (C04's rules); no other method writes their state", 8)
+        rules_c01.reset_premise(F, rep, "RP", ["RelativeStrengthIndex", "FastStochastic", "SlowStochastic", "MoneyFlowIndex", "EfficiencyRatio", "ExponentialMovingAverage", "Minimum", "Maximum"])
     except symex.Unsupported as e:
         rep.violation("C07:unrecognised", "RW", "UNRECOGNISED idiom: %s" % e)
     rep.configs = ["default"]
